@@ -33,7 +33,7 @@ def check_pure(run, eff, f, roots=None, allow=(), rule='R4a', what='query'):
     return not bad
 
 
-def check_copy(run, eff, f, cls_fields, rule='R4'):
+def check_copy(run, eff, f, cls_fields, rule='R4', receiver=None):
     """copy(): every array field of the result is fresh w.r.t. self (c) and every denotation field of the
     class reaches the same-named field of the result (d).  cls_fields: the denotation fields of the class."""
     res = E.result_fields(eff, f)
@@ -80,9 +80,9 @@ def check_copy(run, eff, f, cls_fields, rule='R4'):
         for path, a in E.reachable_atoms(v, heap):
             if a[0] in ('loc', 'copyof') and (a[1] == 'self.' + fld or a[1].startswith('self.' + fld + '.')):
                 mention = True
-        run.check(mention, rule + 'd', f, 'result.%s' % fld,
-                  'field `%s` of the copy is not derived from self.%s: the copy does not denote the same object'
-                  % (fld, fld))
+        run.check(mention, rule + 'd', f, ('%s: ' % receiver if receiver else '') + 'result.%s' % fld,
+                  'field `%s` of the copy is not derived from self.%s: the copy does not denote the same object%s'
+                  % (fld, fld, (' (%s inherits this copy method and has the field `%s`)' % (receiver, fld)) if receiver else ''))
 
 
 def check_fresh_result(run, eff, f, rule='R4a.fresh'):
@@ -103,3 +103,27 @@ def check_fresh_result(run, eff, f, rule='R4a.fresh'):
             run.violation(rule, f, 'result.%s' % path, 'result.%s aliases operand storage %s' % (path, src))
     else:
         run.ok(rule, f, f.qual, 'result is fresh')
+
+
+LINK_FIELDS = {'first_layer', 'last_layer', 'next_layer', 'prev_layer'}
+
+
+def check_no_capture(run, eff, f, rule='R4e'):
+    """An operation that merges another circuit into its receiver must rebuild the layer chain: no layer object reachable from
+    an argument may be linked into the receiver (a link field of anything rooted at `self` receiving a value rooted at another
+    parameter).  A shared layer is changed by later take() calls on either circuit."""
+    s = eff.summary(f)
+    others = [p for p in f.posparams if p != 'self']
+    bad = []
+    for target, field, av in sorted(s.attr_stores, key=repr):
+        if field not in LINK_FIELDS or target.split('.')[0] != 'self':
+            continue
+        for a in av:
+            if a[0] == 'loc' and a[1].split('.')[0] in others and a[1].split('.')[-1] in LINK_FIELDS:
+                bad.append((target, field, a[1]))
+    for target, field, src in bad:
+        run.violation(rule, f, '%s.%s = %s' % (target, field, src), '%s links a layer of its argument into the receiver (%s.%s is %s): the two circuits '
+                      'then share that layer, and a gate taken by one of them later is also taken by the other' % (f.qual, target, field, src))
+    if not bad:
+        run.ok(rule, f, f.qual, 'no link field of the receiver holds a layer of an argument')
+    return not bad
